@@ -43,11 +43,20 @@ def _html(ck, prog):
     construct = SEQ_PATH + ":Sequence.get_HTMLColorString"
     body = f.body()
     loops = [s for s in body if isinstance(s, ast.For)]
-    if len(loops) != 1:
-        raise Undecided("get_HTMLColorString: expected one loop", f.loc())
+    ck.shape(len(loops) == 1, "get_HTMLColorString: one loop", f.loc())
     loop = loops[0]
-    ck.ob("FOLD", construct, unparse(loop.iter) == "self.seq", expected="one iteration per residue, in order", found=unparse(loop.iter),
-          slot="domain", where=f.loc(loop))
+    it, tgt = loop.iter, loop.target
+    enum_start = None
+    if isinstance(it, ast.Call) and getattr(it.func, "id", None) == "enumerate" and it.args and isinstance(tgt, ast.Tuple) and len(tgt.elts) == 2:
+        enum_start = 0
+        if len(it.args) > 1 and isinstance(it.args[1], ast.Constant):
+            enum_start = it.args[1].value
+        for k in it.keywords:
+            if k.arg == "start" and isinstance(k.value, ast.Constant):
+                enum_start = k.value.value
+        it = it.args[0]
+    ck.shape(isinstance(tgt, ast.Name) or enum_start is not None, "get_HTMLColorString: loop target", f.loc(loop))
+    ck.ob("FOLD", construct, unparse(it) == "self.seq", expected="one iteration per residue, in order", found=unparse(loop.iter), slot="domain", where=f.loc(loop))
     ev = Evaluator(prog, positive=())
     fr = _Frame(f, 0)
     me = ObjV("Sequence", {"aminoAcidColorMap": PaletteV("palette")})
@@ -56,59 +65,61 @@ def _html(ck, prog):
         if isinstance(s, ast.Assign) and isinstance(s.targets[0], ast.Name):
             env[s.targets[0].id] = ev.eval(s.value, env, fr)
     strs = [n for n, v in env.items() if isinstance(v, str)]
-    nums = [n for n, v in env.items() if isinstance(v, Rat)]
-    ck.ob("FOLD", construct, len(strs) == 1 and env[strs[0]].startswith("<p") and len(nums) == 1 and env[nums[0]].equals(Rat.const(-1)),
-          expected="opening <p ...> tag; counter starts at -1", found={n: repr(env[n]) for n in strs + nums}, slot="init", where=f.loc())
-    if len(strs) != 1 or len(nums) != 1:
-        return
-    S, C = strs[0], nums[0]
+    nums = [n for n, v in env.items() if isinstance(v, Rat) and v.is_const()]
+    ck.shape(len(strs) == 1 and (len(nums) == 1 or enum_start is not None), "get_HTMLColorString: one string accumulator and one position counter", f.loc())
+    S = strs[0]
+    ck.ob("FOLD", construct, env[S].startswith("<p"), expected="opening <p ...> tag", found=env[S], slot="init", where=f.loc())
+    K = Rat.atom("k")                       # 0-based index of the residue being rendered
     e2 = dict(env)
     e2[S] = AStr("S")
-    e2[C] = Rat.atom("c")
-    e2[loop.target.id] = AStr("r")
+    C = None
+    if enum_start is not None:
+        e2[tgt.elts[0].id] = K + Rat.const(enum_start)
+        e2[tgt.elts[1].id] = AStr("r")
+    else:
+        C = nums[0]
+        e2[C] = K + env[C]
+        e2[tgt.id] = AStr("r")
     res = ev.exec_block(loop.body, [Path([], "live", None, e2)], fr)
     rows = []
     for p in res:
-        o = (p.kind, repr(p.env.get(S)), repr(p.env.get(C)))
-        rows.append((p.conds, o))
-    c1 = Rat.atom("c") + Rat.const(1)
-    m10 = ("cmp", fatom("mod", c1, Rat.const(10)), "==", Rat.const(0))
-    m50 = ("cmp", fatom("mod", c1, Rat.const(50)), "==", Rat.const(0))
+        adv = "n/a"
+        if C is not None:
+            v = p.env.get(C)
+            adv = repr(v - e2[C]) if isinstance(v, Rat) else "?"
+        rows.append((p.conds, (p.kind, repr(p.env.get(S)), adv)))
+    m10 = ("cmp", fatom("mod", K, Rat.const(10)), "==", Rat.const(0))
+    m50 = ("cmp", fatom("mod", K, Rat.const(50)), "==", Rat.const(0))
     fmtstr = None
     for n in ast.walk(loop):
         if isinstance(n, ast.BinOp) and isinstance(n.op, ast.Mod) and isinstance(n.left, ast.Constant) and isinstance(n.left.value, str):
             fmtstr = n.left.value
-    ck.ob("FOLD-span", construct, fmtstr is not None and fmtstr.count("%s") == 3 and "color:%s" in fmtstr and ">%s<" in fmtstr
-          and fmtstr.startswith("%s"), expected="'%s<span style=\"color:%s\">%s</span>'", found=fmtstr, slot="format", where=f.loc(loop))
-    if fmtstr is None:
-        return
+    ck.shape(fmtstr is not None and fmtstr.count("%s") == 3 and fmtstr.startswith("%s"), "get_HTMLColorString: span appended with a three-slot format string", f.loc(loop))
+    ck.ob("FOLD-span", construct, "color:%s" in fmtstr and ">%s<" in fmtstr and fmtstr.count("<span") == 1 and fmtstr.count("</span>") == 1,
+          expected="'%s<span style=\"color:%s\">%s</span>'", found=fmtstr, slot="format", where=f.loc(loop))
 
     def span(prefix):
         return astr_fmt(fmtstr, [prefix, AStr("palette[r]"), AStr("r")])
     base = AStr("S")
     sp = astr_cat(base, " ")
-    spec = [([m10, m50], ("live", repr(span(astr_cat(sp, "<br>"))), repr(c1))),
-            ([m10, ("not", m50)], ("live", repr(span(sp)), repr(c1))),
-            ([("not", m10), m50], ("live", repr(span(astr_cat(base, "<br>"))), repr(c1))),
-            ([("not", m10), ("not", m50)], ("live", repr(span(base)), repr(c1)))]
-    mis = compare_rows(rows, spec, positive=())
+    adv = "n/a" if C is None else repr(Rat.const(1))
+    spec = [([m10, m50], ("live", repr(span(astr_cat(sp, "<br>"))), adv)),
+            ([m10, ("not", m50)], ("live", repr(span(sp)), adv)),
+            ([("not", m10), m50], ("live", repr(span(astr_cat(base, "<br>"))), adv)),
+            ([("not", m10), ("not", m50)], ("live", repr(span(base)), adv))]
+    mis = compare_rows(rows, spec, positive=(), int_atoms={"k"})
     ck.ob("FOLD-span", construct, mis is None,
-          expected="count+=1 first; ' ' iff count%10==0, then '<br>' iff count%50==0, then ONE span (accumulated, palette[residue], residue)",
+          expected="residue k (0-based): ' ' iff k%10==0, then '<br>' iff k%50==0, then ONE span (accumulated, palette[residue], residue); counter advanced once",
           found=mis or "equivalent", slot="per-residue-table", where=f.loc(loop))
     ck.count("span paths", len(rows))
     ck.sample({"span_table": [(fmt_conds(c), o) for c, o in rows]})
-    # closing tag and return
     post = body[body.index(loop) + 1:]
     e3 = dict(env)
     e3[S] = AStr("S")
-    ok = False
-    if len(post) == 2 and isinstance(post[0], ast.Assign) and isinstance(post[1], ast.Return):
-        v = ev.eval(post[0].value, e3, fr)
-        ok = unparse(post[0].targets[0]) == S and repr(v) == repr(astr_cat(AStr("S"), "</p>")) and unparse(post[1].value) == S
-    elif len(post) == 1 and isinstance(post[0], ast.Return):
-        v = ev.eval(post[0].value, e3, fr)
-        ok = repr(v) == repr(astr_cat(AStr("S"), "</p>"))
-    ck.ob("FOLD", construct, ok, expected="returns the accumulated string + '</p>'", found=[unparse(s) for s in post], slot="closing", where=f.loc())
+    outs = ev.exec_block(post, [Path([], "live", None, e3)], fr)
+    ck.shape(len(outs) == 1 and outs[0].kind == "return", "get_HTMLColorString: single return after the loop", f.loc())
+    ck.ob("FOLD", construct, repr(outs[0].value) == repr(astr_cat(AStr("S"), "</p>")), expected="returns the accumulated string + '</p>'", found=repr(outs[0].value), slot="closing",
+          where=f.loc())
 
 
 def _run_setter(prog, palette):
@@ -179,10 +190,25 @@ def _tables(ck, prog):
     f = prog.fn(SEQ, "Sequence.set_HTMLColorResiduePalette")
     construct = SEQ_PATH + ":Sequence.set_HTMLColorResiduePalette"
     lists = []
+    param = f.params()[1]
     for n in ast.walk(f.node):
-        if isinstance(n, ast.Compare) and isinstance(n.ops[0], (ast.In, ast.NotIn)) and isinstance(n.comparators[0], (ast.List, ast.Tuple, ast.Set)):
-            lists.append(sorted(e.value for e in n.comparators[0].elts if isinstance(e, ast.Constant)))
-    ck.ob("TAB-colours", construct, lists == [sorted(COLOURS)], expected=sorted(COLOURS), found=lists, slot="17-names", where=f.loc())
+        if isinstance(n, ast.Compare) and isinstance(n.ops[0], (ast.In, ast.NotIn)) and isinstance(n.left, ast.Subscript) and unparse(n.left.value) == param:
+            c = n.comparators[0]
+            if isinstance(c, ast.Name):
+                vals = [a.value for a in ast.walk(f.node) if isinstance(a, ast.Assign) and len(a.targets) == 1 and isinstance(a.targets[0], ast.Name)
+                        and a.targets[0].id == c.id]
+                g = prog.resolve_global(f.mod, c)
+                if len(vals) == 1:
+                    c = vals[0]
+                elif g and g[1] in g[0].globals:
+                    c = g[0].globals[g[1]]
+            if isinstance(c, ast.Call) and getattr(c.func, "id", None) in ("frozenset", "set", "tuple", "list") and len(c.args) == 1:
+                c = c.args[0]
+            ck.shape(isinstance(c, (ast.List, ast.Tuple, ast.Set)) and all(isinstance(e, ast.Constant) for e in c.elts),
+                     "palette setter: colour test against a literal collection", f.loc(n))
+            lists.append(sorted(e.value for e in c.elts))
+    ck.shape(len(lists) == 1, "palette setter: one membership test on the supplied colour", f.loc())
+    ck.ob("TAB-colours", construct, lists[0] == sorted(COLOURS), expected=sorted(COLOURS), found=lists[0], slot="17-names", where=f.loc())
     pal = tab.global_literal(prog, tab.AA, "DEFAULT_COLOR_PALETTE")
     ck.ob("TAB-colours", "localcider/backend/data/aminoacids.py:DEFAULT_COLOR_PALETTE", sorted(pal) == sorted(LETTERS) and all(v in COLOURS for v in pal.values()),
           expected="20 keys, every value one of the 17 names", found={k: v for k, v in pal.items() if v not in COLOURS} or sorted(pal), slot="default-palette")
